@@ -1,6 +1,7 @@
 (** C18 — checkpoints round-trip exactly and a restarted run continues the original one.
     Only statements, [exact]s and [Print Assumptions]; proofs live in Checkpoint.v, Driver.v, CkNames.v.
-    What the faithful model of fullSimulation.py REFUTES is stated as such ([..._refuted]). *)
+    The pinned tree violated several clauses (final-window rows, rows after unaligned restarts, latest file for
+    t >= 10^6, float time steps); they are repaired in /repo and the theorems below describe the repaired code. *)
 From Coq Require Import List Arith NArith Lia Permutation.
 Import ListNotations.
 From PGV Require Import Blocks NdIndex Checkpoint Driver CkNames.
@@ -185,25 +186,36 @@ Theorem restart_aligned_rows_each_time_once : forall (F D : Type) (step : F -> F
 Proof. exact ck_restart_aligned_rows_once. Qed.
 Print Assumptions restart_aligned_rows_each_time_once.
 
-(** REFUTED for stop times that are not multiples of saveStep (saveStep 3, stop after 1 step, continue to
-    6): the row of the stop time is printed twice, the row of time 3 never; (saveStep 4, stop after 2,
-    continue to 3): a zero row *)
-Theorem restart_equiv_lines_refuted :
-  ~ (forall S N T, 0 < S -> N <= T -> ck_lines_split_nat S N T = ck_lines_unsplit_nat S T).
-Proof. exact ck_restart_lines_not_general. Qed.
-Print Assumptions restart_equiv_lines_refuted.
+(** [restart_equiv] IN FULL (tree after b2d9318), for every save interval >= 1 and every history: a new
+    simulation followed by any number of restarts from its folder, every run ending wherever its tEnd / the
+    wall clock says (stop points anywhere, also not on save steps, also runs of zero steps).  With T the end
+    of the last run: the field is step^T of the initial one; the rows of all runs together are the times
+    0..T, each exactly once, each with the diagnostics of the field of its time; the folder holds exactly
+    the checkpoints of the multiples of saveStep up to T and of the stop points, each with the field of its
+    time; and the next restart would resume from (T, field at T). *)
+Theorem restart_equiv_full : forall (F D : Type) (step : F -> F) (diag : F -> D) S, 0 < S ->
+  forall f0 st folder rows stops,
+  ck_hist F D step diag S f0 st folder rows stops ->
+  let T := ck_ti F D st in
+  ck_fld F D st = ck_pow F step T f0 /\
+  Permutation rows (map (ck_L F D step diag f0) (seq 0 (T + 1))) /\
+  (forall k g, In (k, g) folder <-> g = ck_pow F step k f0 /\ ((k mod S = 0 /\ k <= T) \/ In k stops)) /\
+  (forall N, In N stops -> N <= T) /\ In T stops /\
+  ck_latest F folder = Some (T, ck_pow F step T f0).
+Proof. exact ck_hist_spec. Qed.
+Print Assumptions restart_equiv_full.
 
-Theorem restart_lines_missing_row_refuted :
-  ck_lines_unsplit_nat 3 6 = [Some 0; Some 3; Some 1; Some 2; Some 6; Some 4; Some 5] /\
-  ck_lines_split_nat 3 1 6 = [Some 0; Some 1; Some 1; Some 2; Some 6; Some 4; Some 5].
-Proof. exact ck_restart_lines_refuted. Qed.
-Print Assumptions restart_lines_missing_row_refuted.
-
-Theorem restart_lines_zero_row_refuted :
-  ck_lines_unsplit_nat 4 3 = [Some 0; Some 1; Some 2; Some 3] /\
-  ck_lines_split_nat 4 2 3 = [Some 0; Some 1; Some 2; None; Some 2; Some 3].
-Proof. exact ck_restart_zero_rows_refuted. Qed.
-Print Assumptions restart_lines_zero_row_refuted.
+(** compared with the run that was never stopped: same time, same field, the same rows up to their order,
+    the same checkpoints plus those of the stop points *)
+Theorem restart_vs_uninterrupted : forall (F D : Type) (step : F -> F) (diag : F -> D) S, 0 < S ->
+  forall f0 st folder rows stops,
+  ck_hist F D step diag S f0 st folder rows stops ->
+  let stu := ck_run F D step diag S (ck_ti F D st) [] (ck_fresh F D diag S f0) in
+  ck_ti F D stu = ck_ti F D st /\ ck_fld F D stu = ck_fld F D st /\ Permutation rows (ck_lines F D stu) /\
+  (forall k g, In (k, g) (ck_files F D stu) -> In (k, g) folder) /\
+  (forall k g, In (k, g) folder -> In (k, g) (ck_files F D stu) \/ In k stops).
+Proof. exact ck_hist_vs_uninterrupted. Qed.
+Print Assumptions restart_vs_uninterrupted.
 
 (** ** non-vacuity *)
 (** a 3 x 4 array written by a 2 x 1 grid and read by rank (0,2) of a 1 x 3 grid (column starts 0,1,2,4): columns 2..3 *)
@@ -218,7 +230,7 @@ Example driver_example :
   ck_run_nat 2 5 None [true; true; false] =
     (3, 3, 3, [(0, 0); (2, 2); (3, 3)], [Some (0, 0); Some (2, 2); Some (1, 1); Some (3, 3)]) /\
   ck_run_nat 2 5 (Some 3) [] =
-    (5, 5, 2, [(4, 4); (5, 5)], [Some (3, 3); Some (5, 5)]).
+    (5, 5, 2, [(4, 4); (5, 5)], [Some (4, 4); Some (5, 5)]).
 Proof. vm_compute. split; reflexivity. Qed.
 
 (** saveStep 3, 7 steps: the final block prints the row of time 7 (before f107601: row 6 a second time) *)
@@ -230,6 +242,12 @@ Example latest_examples :
   ck_latest_name (map ck_stamp_name [(1999998, false); (2000000, false)]%N) = Some (ck_name 1000000) /\
   ck_latest_name (map ck_stamp_name [(2, false); (3, true); (0, false)]%N) =
     Some (ck_prefix ++ [48; 48; 48; 49; 46; 53]%N ++ ck_suffix).
+Proof. vm_compute. split; reflexivity. Qed.
+
+(** histories with restarts off the save steps: every time once (before b2d9318: [0;1;1;2;6;4;5], [0;1;2;-;2;3]) *)
+Example restart_unaligned_examples :
+  ck_lines_split_nat 3 1 6 = [Some 0; Some 1; Some 3; Some 2; Some 6; Some 4; Some 5] /\
+  ck_lines_split_nat 4 2 3 = [Some 0; Some 1; Some 2; Some 3].
 Proof. vm_compute. split; reflexivity. Qed.
 
 Example names_example : ck_name 40 = [103;114;105;100;95; 48;48;48;48;52;48; 46;104;53]%N.
